@@ -1,4 +1,5 @@
 import Secp.Proofs.DecodeRT
+import Secp.Proofs.DecodeTies
 /-!
 # C04 — element encodings are canonical SEC1 and round-trip through Decode
 
@@ -40,6 +41,14 @@ theorem decode_encodeUncompressed (e P : Pt L4) (hP : Valid P) :
     (Hand.ElementL.decode e (Hand.ElementL.encodeUncompressed P)).1 = none ∧
     Valid (Hand.ElementL.decode e (Hand.ElementL.encodeUncompressed P)).2 ∧
     G (Hand.ElementL.decode e (Hand.ElementL.encodeUncompressed P)).2 = G P := _root_.decode_encodeUncompressed e P hP
+
+/-- the encoders of `element.go`, regenerated from their Go bodies on every run (the local byte array, `affine()` inlined,
+`subtle.ConstantTimeSelect`/`ConstantTimeCopy`, `append`, the final re-slice), are the model the theorems above are about -/
+theorem encoders_tied (e : Pt L4) :
+    GenDecode.encode DecodeTies.limbBytes Hand.limbOps e = Hand.ElementL.encode e ∧
+    GenDecode.encodeUncompressed DecodeTies.limbBytes Hand.limbOps e = Hand.ElementL.encodeUncompressed e ∧
+    GenDecode.xCoordinate DecodeTies.limbBytes Hand.limbOps e = Hand.ElementL.xCoordinate e :=
+  ⟨DecodeTies.encode_tie e, DecodeTies.encodeUncompressed_tie e, DecodeTies.xCoordinate_tie e⟩
 
 example : Valid Hand.ElementL.base := base_valid
 example : Valid (Hand.Element.identity Hand.limbOps) := identity_valid limbLawful
